@@ -190,7 +190,7 @@ LawOneSided ==
 \* ---------------------------------------------------------------- tour
 Case(tr, c, stable, cb) == [tree |-> tr, ctl |-> c, stable |-> stable, cb |-> cb]
 Line(e) == PrintT("@@" \o ToJson(e @@ [exp |-> Expect(e)]))
-OneSided(tr) == {<<>>} \cup {<< <<k, c>> >> : k \in 1..Len(tr), c \in {1, 2, 3}}
+OneSided(tr) == {<<>>} \cup {<< <<k, c>> >> : k \in 1..Len(tr), c \in IF Quick THEN {1, 2} ELSE {1, 2, 3}}
 Emit == WellFormed(T') =>
           /\ \A c \in Ctls(T') : Line(Case(T', c, 1, 0))
           /\ \A c \in OneSided(T') : Line(Case(T', c, 1, 1)) /\ Line(Case(T', c, 1, 2))
